@@ -91,12 +91,12 @@ EXTRA = {
  "C05": " Every eighth tree is additionally evaluated with its root operator in a macro body and the root's operands as arguments.",
  "C08": " Every fourth program is additionally assembled with everything after the prelude as the body of a macro called with one argument, unselected lines using parameters the call does not pass.",
  "C09": " Deterministic context pairs (macro form vs hand-expanded text): origins set by bodies, definitions inside taken/untaken conditionals closed with .endm/.endmacro, comment characters inside literals of a body, the moment a conditional of the body is decided (open finding), calls made while .dseg/.eseg is selected.",
- "C11": " Trees with an even number of files name the main file by a path relative to the working directory; the main file may be a symbolic link.",
+ "C11": " Trees with an even number of files name the main file by a path relative to the working directory; the main file may be a symbolic link. A deterministic leg opens a conditional or a macro definition in one file and closes it in the other (two open findings).",
  "C12": " A placement grid (every device x memory x {cap, cap+1}) selects the device from a macro body (defined before or after), inside a conditional or after the content, places the last unit through a macro that starts with .org, and follows an over-full memory by an .org back to its start; .device operands that are not names, two names on one line and second selections through macros must fail.",
  "C13": " A seeded free-form leg (800k quick / 8M thorough) and the libFuzzer target `gate` put generated encodable instructions (all operand spellings, word addresses 0-5) under every device of the table.",
  "C14": " Comment texts include banners (runs of 90-300 operator or parenthesis characters) in all three comment kinds; a radix leg writes values around 2^31..2^70 in every radix and compares with the decimal spelling in five contexts.",
  "C15": " Fault kinds include an undefined symbol where its value cannot matter (right of a decided && / ||, times zero, inside a function); every fourth fault program is also built from a file (as main file and as included file, blank lines on top); messages issued from macro bodies must come in textual order or in the order of assembly (open finding).",
- "C16": " Worker processes run on a 2 MiB stack (the default of a Rust thread). Stress inputs include operator chains up to 10^6 terms in seven positions, symbols x operator chains, absurd sizes under seven devices x nine ways x three sizes, and one name defined by two kinds of definition in both orders (also reserved names).",
+ "C16": " Worker processes run on a 2 MiB stack (the default of a Rust thread). Stress inputs include operator chains up to 10^6 terms in seven positions, symbols x operator chains, absurd sizes under seven devices x nine ways x three sizes, and one name defined by two kinds of definition in both orders (also reserved names). The stress inputs additionally go through the unoptimised command-line binary on its default 8 MiB stack (exit status 0 or 1 within the watchdog, never a signal).",
  "C17": " A further family uses device names that are near keys of the device table (longer, shorter, other letter case), so that a lookup that iterates a hash map shows as a difference between processes.",
  "C18": " Sources may be reached through a symbolic link with another stem in the same or another directory, carry non-ASCII and non-UTF-8 names, and -o/-e may name /dev/full or one shared path (which must be reported as a failure when both images are non-empty).",
 }
